@@ -120,6 +120,7 @@ type Client struct {
 	requestID        atomic.Int64           // Atomic counter for request IDs.
 	capabilities     map[string]interface{} // Capabilities.
 	state            State                  // State.
+	stateMu          sync.RWMutex           // Guards initialized and state: Close and TerminateSession may run while calls are in flight.
 	transportOptions []transportOption
 
 	// transport configuration.
@@ -333,18 +334,36 @@ func (c *Client) applyHTTPBeforeRequest(ctx context.Context, req *http.Request) 
 
 // GetState returns the current client state.
 func (c *Client) GetState() State {
+	c.stateMu.RLock()
+	defer c.stateMu.RUnlock()
 	return c.state
 }
 
 // setState sets the client state.
 func (c *Client) setState(state State) {
+	c.stateMu.Lock()
+	defer c.stateMu.Unlock()
 	c.state = state
+}
+
+// isInitialized reports whether the handshake has completed.
+func (c *Client) isInitialized() bool {
+	c.stateMu.RLock()
+	defer c.stateMu.RUnlock()
+	return c.initialized
+}
+
+// setInitialized records whether the handshake has completed.
+func (c *Client) setInitialized(initialized bool) {
+	c.stateMu.Lock()
+	defer c.stateMu.Unlock()
+	c.initialized = initialized
 }
 
 // Initialize initializes the client connection.
 func (c *Client) Initialize(ctx context.Context, initReq *InitializeRequest) (*InitializeResult, error) {
 	// Check if already initialized.
-	if c.initialized {
+	if c.isInitialized() {
 		return nil, errors.ErrAlreadyInitialized
 	}
 
@@ -396,7 +415,7 @@ func (c *Client) Initialize(ctx context.Context, initReq *InitializeRequest) (*I
 	}
 
 	// Update state and initialized flag
-	c.initialized = true
+	c.setInitialized(true)
 	c.setState(StateInitialized)
 
 	// Try to establish GET SSE connection if transport supports it
@@ -420,7 +439,7 @@ func (c *Client) SendInitialized(ctx context.Context) error {
 // ListTools lists available tools.
 func (c *Client) ListTools(ctx context.Context, listToolsReq *ListToolsRequest) (*ListToolsResult, error) {
 	// Check if initialized.
-	if !c.initialized {
+	if !c.isInitialized() {
 		return nil, errors.ErrNotInitialized
 	}
 
@@ -457,7 +476,7 @@ func (c *Client) ListTools(ctx context.Context, listToolsReq *ListToolsRequest) 
 // CallTool calls a tool.
 func (c *Client) CallTool(ctx context.Context, callToolReq *CallToolRequest) (*CallToolResult, error) {
 	// Check if initialized.
-	if !c.initialized {
+	if !c.isInitialized() {
 		return nil, errors.ErrNotInitialized
 	}
 
@@ -495,7 +514,7 @@ func (c *Client) Close() error {
 	if c.transport != nil {
 		err := c.transport.close()
 		c.setState(StateDisconnected)
-		c.initialized = false
+		c.setInitialized(false)
 		return err
 	}
 	return nil
@@ -532,7 +551,7 @@ func (c *Client) UnregisterNotificationHandler(method string) {
 // ListPrompts lists available prompts.
 func (c *Client) ListPrompts(ctx context.Context, listPromptsReq *ListPromptsRequest) (*ListPromptsResult, error) {
 	// Check if initialized.
-	if !c.initialized {
+	if !c.isInitialized() {
 		return nil, errors.ErrNotInitialized
 	}
 
@@ -569,7 +588,7 @@ func (c *Client) ListPrompts(ctx context.Context, listPromptsReq *ListPromptsReq
 // GetPrompt gets a specific prompt.
 func (c *Client) GetPrompt(ctx context.Context, getPromptReq *GetPromptRequest) (*GetPromptResult, error) {
 	// Check if initialized.
-	if !c.initialized {
+	if !c.isInitialized() {
 		return nil, errors.ErrNotInitialized
 	}
 
@@ -606,7 +625,7 @@ func (c *Client) GetPrompt(ctx context.Context, getPromptReq *GetPromptRequest) 
 // ListResources lists available resources.
 func (c *Client) ListResources(ctx context.Context, listResourcesReq *ListResourcesRequest) (*ListResourcesResult, error) {
 	// Check if initialized.
-	if !c.initialized {
+	if !c.isInitialized() {
 		return nil, fmt.Errorf("%w", errors.ErrNotInitialized)
 	}
 
@@ -643,7 +662,7 @@ func (c *Client) ListResources(ctx context.Context, listResourcesReq *ListResour
 // ReadResource reads a specific resource.
 func (c *Client) ReadResource(ctx context.Context, readResourceReq *ReadResourceRequest) (*ReadResourceResult, error) {
 	// Check if initialized.
-	if !c.initialized {
+	if !c.isInitialized() {
 		return nil, fmt.Errorf("%w", errors.ErrNotInitialized)
 	}
 
@@ -686,7 +705,7 @@ func (c *Client) SetRootsProvider(provider RootsProvider) {
 
 // SendRootsListChangedNotification notifies server that roots changed.
 func (c *Client) SendRootsListChangedNotification(ctx context.Context) error {
-	if !c.initialized {
+	if !c.isInitialized() {
 		return errors.ErrNotInitialized
 	}
 	// Create roots list changed notification.
